@@ -42,7 +42,7 @@ func Harness_P10() {
 		if g.annG == 2 {
 			keyword = "nonnil"
 		}
-		switch ndChoice("global_declaration", 3) {
+		switch ndChoice("global_declaration", 4) {
 		case 0:
 			g.emit("// " + keyword + "(g)")
 			if g.annG == 2 {
@@ -60,6 +60,15 @@ func Harness_P10() {
 				g.gDeclLine = g.emit("\tg *int")
 			}
 			g.emit("\tother int")
+			g.emit(")")
+		case 3: // a parenthesised group with a single spec: the annotation sits on the spec
+			g.emit("var (")
+			g.emit("\t// " + keyword + "(g)")
+			if g.annG == 2 {
+				g.gDeclLine = g.emit("\tg *int = new(int)")
+			} else {
+				g.gDeclLine = g.emit("\tg *int")
+			}
 			g.emit(")")
 		default:
 			g.emit("func load() *int { return new(int) }")
@@ -93,6 +102,31 @@ func Harness_P10() {
 	g.emit("}")
 	calleeDeref := g.emitCallee()
 	src := g.b.String()
+	if ndChoice("names_with_underscore", 2) == 1 {
+		// the annotated names contain an underscore (a_p, g_v)
+		src = p10Rename(src)
+	}
 	ndObserveStr("source", src)
 	g.judge(src, calleeDeref, 0)
+}
+
+// p10Rename renames the callee's parameter a to a_p and the package-level pointer g to g_v (whole words only).
+func p10Rename(src string) string {
+	isWord := func(c byte) bool {
+		return c == '_' || (c >= '0' && c <= '9') || (c >= 'a' && c <= 'z') || (c >= 'A' && c <= 'Z')
+	}
+	out := make([]byte, 0, len(src)+32)
+	for k := 0; k < len(src); k++ {
+		c := src[k]
+		if (c == 'a' || c == 'g') && (k == 0 || !isWord(src[k-1])) && (k+1 == len(src) || !isWord(src[k+1])) {
+			if c == 'a' {
+				out = append(out, "a_p"...)
+			} else {
+				out = append(out, "g_v"...)
+			}
+			continue
+		}
+		out = append(out, c)
+	}
+	return string(out)
 }
